@@ -7,6 +7,9 @@ code object is ever created or called.  Anything outside the recognised subset r
 from __future__ import annotations
 
 import ast
+import collections
+import functools
+import itertools
 import operator
 from typing import Any, Dict, List, Optional
 
@@ -92,6 +95,11 @@ def _pure_stdlib():
         if hasattr(itertools, n):
             t[("itertools", n)] = getattr(itertools, n)
     t[("functools", "reduce")] = functools.reduce
+    t[("functools", "partial")] = functools.partial
+    t[("collections", "defaultdict")] = collections.defaultdict
+    import textwrap as _tw
+    t[("textwrap", "dedent")] = _tw.dedent
+    t[("textwrap", "indent")] = _tw.indent
     for n in dir(operator):
         if not n.startswith("_"):
             t[("operator", n)] = getattr(operator, n)
@@ -714,6 +722,10 @@ class Interp:
             if n.id in ("True", "False", "None"):
                 return {"True": True, "False": False, "None": None}[n.id]
             raise Unsupported(f"unknown name {n.id}")
+        if isinstance(n, ast.NamedExpr) and isinstance(n.target, ast.Name):
+            v = self.expr(n.value, env)
+            self._assign(n.target, v, env)
+            return v
         if isinstance(n, ast.JoinedStr):
             out = []
             for v in n.values:
@@ -902,6 +914,19 @@ class Interp:
             return False
 
     def _stdlib(self, fn, args, kwargs, node):
+        if fn is functools.partial and args:
+            # a callable value of the analysed code: calling it calls the wrapped value with the stored arguments first
+            tgt_, pre_, prekw_ = args[0], list(args[1:]), dict(kwargs)
+            part_ = lambda *a_, **k_: self.call_value(tgt_, pre_ + list(a_), {**prekw_, **k_}, node)
+            part_._dl_lambda = True
+            part_._dl_partial = True
+            return part_
+        if fn is collections.defaultdict:
+            fac_ = args[0] if args else None
+            if fac_ is not None and not (isinstance(fac_, type) and fac_ in (list, dict, set, int, float, str, tuple, bool)):
+                fv_ = fac_
+                fac_ = lambda: self.call_value(fv_, [], {}, node)
+            return collections.defaultdict(fac_, *args[1:], **kwargs)
         try:
             r = fn(*args, **kwargs)
         except (ValueError, TypeError, ZeroDivisionError, OverflowError, KeyError, IndexError, SyntaxError, RecursionError, MemoryError) as e:
@@ -1031,6 +1056,13 @@ class Interp:
                 return getattr(base, m)(*args)
             if base is dict and m == "fromkeys":
                 return dict.fromkeys(*args)
+            if base is itertools.chain and m == "from_iterable" and len(args) == 1:
+                return [x_ for part_ in args[0] for x_ in part_]
+            if base is str and m == "maketrans":
+                try:
+                    return str.maketrans(*args)
+                except (ValueError, TypeError) as e:
+                    raise Raised(type(e).__name__, "", n)
             if isinstance(base, Synth) and callable(getattr(base, m, None)) and getattr(getattr(base, m), "_dl_lambda", False):
                 return getattr(base, m)(*args)        # a callback/provider the checker stored on a host object
             if getattr(base, "__dl_native__", False):
@@ -1206,6 +1238,8 @@ class Interp:
             return self._call(target.fn, list(args), dict(kwargs or {}), target.env)
         if isinstance(target, (ast.FunctionDef,)):
             return self._call(target, list(args), dict(kwargs or {}))
+        if callable(target) and getattr(target, "_dl_partial", False):
+            return target(*args, **(kwargs or {}))
         if callable(target) and getattr(target, "_dl_lambda", False):
             return target(*args)
         if isinstance(target, type) and issubclass(target, Synth):
